@@ -6,6 +6,7 @@ use anyhow::{Context, anyhow};
 use nix::unistd::Pid;
 use serde_json::{Value, json};
 use std::path::{Path, PathBuf};
+use std::sync::atomic::Ordering;
 
 #[derive(Debug, Clone)]
 pub struct ModuleInfo {
@@ -81,6 +82,7 @@ impl super::DebugSession {
         process: Child<Installed>,
         stdout_reader: os_pipe::PipeReader,
         stderr_reader: os_pipe::PipeReader,
+        output_pipes: [os_pipe::PipeWriter; 2],
         oracles: &[String],
     ) -> anyhow::Result<()> {
         let oracles = self.resolve_oracles(oracles);
@@ -91,7 +93,7 @@ impl super::DebugSession {
             .context("Build debugger")?;
         self.debugger = Some(dbg);
 
-        self.start_output_forwarding(stdout_reader, stderr_reader);
+        self.start_output_forwarding(stdout_reader, stderr_reader, output_pipes);
         Ok(())
     }
 
@@ -103,6 +105,7 @@ impl super::DebugSession {
     ) -> anyhow::Result<()> {
         let (stdout_reader, stdout_writer) = os_pipe::pipe().unwrap();
         let (stderr_reader, stderr_writer) = os_pipe::pipe().unwrap();
+        let output_pipes = [stdout_writer.try_clone()?, stderr_writer.try_clone()?];
 
         let program_path = if !Path::new(program).exists() {
             which::which(program)?.to_string_lossy().to_string()
@@ -121,12 +124,19 @@ impl super::DebugSession {
             .install()
             .context("Initial process instantiation")?;
 
-        self.build_debugger_from_process(process, stdout_reader, stderr_reader, oracles)
+        self.build_debugger_from_process(
+            process,
+            stdout_reader,
+            stderr_reader,
+            output_pipes,
+            oracles,
+        )
     }
 
     fn build_attached_debugger(&mut self, pid: Pid, oracles: &[String]) -> anyhow::Result<()> {
         let (stdout_reader, stdout_writer) = os_pipe::pipe().unwrap();
         let (stderr_reader, stderr_writer) = os_pipe::pipe().unwrap();
+        let output_pipes = [stdout_writer.try_clone()?, stderr_writer.try_clone()?];
         let oracles = self.resolve_oracles(oracles);
         let dbg = debugger::DebuggerBuilder::<debugger::NopHook>::new()
             .with_oracles(oracles)
@@ -134,7 +144,7 @@ impl super::DebugSession {
             .context("Attach external process")?;
 
         self.debugger = Some(dbg);
-        self.start_output_forwarding(stdout_reader, stderr_reader);
+        self.start_output_forwarding(stdout_reader, stderr_reader, output_pipes);
         Ok(())
     }
 
@@ -215,7 +225,7 @@ impl super::DebugSession {
         // Source map (remote/WSL/container path mapping).
         self.source_map = SourceMap::from_launch_args(&req.arguments);
         // Reset session termination state for a new launch.
-        self.terminated = false;
+        self.terminated.store(false, Ordering::SeqCst);
         self.exit_code = None;
         self.session_mode = Some(SessionMode::Launch);
 
@@ -267,7 +277,7 @@ impl super::DebugSession {
         let pid = Self::attach_pid(&req.arguments)?;
 
         self.source_map = SourceMap::from_launch_args(&req.arguments);
-        self.terminated = false;
+        self.terminated.store(false, Ordering::SeqCst);
         self.exit_code = None;
         self.session_mode = Some(SessionMode::Attach);
 
